@@ -277,23 +277,27 @@ def linear_form(p):
 
 
 def inverse(p):
-    """1/p for p a rational constant or a homogeneous linear form (bracket)."""
+    """1/p for p a rational constant or any non-constant polynomial without
+    inverse atoms (kept as an atom; cleared by `clear`)."""
     if len(p.t) == 1 and () in p.t:
-        return Poly.const(1 / Fraction(p.t[()]))
-    lf = linear_form(p)
-    if lf is None:
-        raise NotImplementedError(f"inverse of a non-linear value: {p!r}")
-    # normalise: leading coefficient +1
-    lead = Fraction(lf[0][1])
-    lf = tuple((a, Fraction(c) / lead) for a, c in lf)
-    name = "1/(" + "+".join(f"{c}*{_names[a]}" for a, c in lf) + ")"
+        return Poly.const(_num(1 / Fraction(p.t[()])))
+    if not p.t:
+        raise ZeroDivisionError("inverse of the zero polynomial")
+    if any(a in _brackets for a in p.atoms()):
+        raise NotImplementedError(f"inverse of a value with denominators: {p!r}")
+    # normalise: leading coefficient (smallest monomial) +1
+    items = sorted(p.t.items())
+    lead = Fraction(items[0][1])
+    norm = tuple((m, _num(Fraction(c) / lead)) for m, c in items)
+    name = "1/(" + "+".join(
+        f"{c}*{'*'.join(_names[a] for a in m) or '1'}" for m, c in norm) + ")"
     i = _atom(name)
-    _brackets[i] = lf
-    return Poly({(i,): 1 / lead})
+    _brackets[i] = norm
+    return Poly({(i,): _num(1 / lead)})
 
 
-def _bracket_poly(lf):
-    return Poly({(a,): c for a, c in lf})
+def _bracket_poly(norm):
+    return Poly(dict(norm))
 
 
 def clear(p):
